@@ -357,84 +357,6 @@ Section FoldSet.
   Qed.
 End FoldSet.
 
-(* ---- the 3.0 write-through keeps the key set ---- *)
-
-Lemma write_through_keys t sch v t' : write_through t sch v = Some t' -> keys t' = keys t.
-Proof.
-  unfold write_through. destruct sch; try (intros H; inversion H; reflexivity).
-  destruct (touches v); [|intros H; inversion H; reflexivity].
-  destruct (lookup t name) eqn:E; [|discriminate]. intros H; inversion H; subst. clear H.
-  apply lookup_some_in in E. unfold keys in *.
-  induction t as [|[m c'] t IH]; simpl in *; [destruct E|].
-  destruct (str_eqb m name) eqn:E2; simpl; [reflexivity|].
-  f_equal. apply IH. destruct E as [E|E]; auto. subst. rewrite str_eqb_refl in E2. discriminate.
-Qed.
-
-Definition thread {A} (g : table -> A -> option table) (acc : option table) (x : A) : option table :=
-  match acc with Some t => g t x | None => None end.
-
-Lemma thread_none {A} (g : table -> A -> option table) l : fold_left (thread g) l None = None.
-Proof. induction l; simpl; auto. Qed.
-
-Lemma thread_keys {A} (g : table -> A -> option table) :
-  (forall t x t', g t x = Some t' -> keys t' = keys t) ->
-  forall l t t', fold_left (thread g) l (Some t) = Some t' -> keys t' = keys t.
-Proof.
-  intros Hg. induction l as [|x l IH]; intros t t' H; simpl in H.
-  - inversion H; reflexivity.
-  - destruct (g t x) eqn:E; [|rewrite thread_none in H; discriminate].
-    rewrite (IH _ _ H). eapply Hg; eauto.
-Qed.
-
-Lemma emit_struct30_some acc name fs t' :
-  emit_struct30 acc name fs = Some t' ->
-  exists t t1, acc = Some t /\ keys t1 = keys t /\ t' = set_comp t1 name (struct_comp fs).
-Proof.
-  unfold emit_struct30. destruct acc as [t|].
-  - change (fun a f => match a with
-                       | Some t0 => write_through t0 (schema_of_texpr (f_type f)) (f_validate f)
-                       | None => None end)
-      with (thread (fun t0 (f : field) => write_through t0 (schema_of_texpr (f_type f)) (f_validate f))).
-    destruct (fold_left _ (plain_fields fs) (Some t)) as [t1|] eqn:E; [|discriminate].
-    intros H; inversion H; subst. exists t, t1. split; [reflexivity|]. split; [|reflexivity].
-    eapply thread_keys; [|exact E]. intros t2 x t3 Hx. eapply write_through_keys; exact Hx.
-  - change (fun a f => match a with
-                       | Some t0 => write_through t0 (schema_of_texpr (f_type f)) (f_validate f)
-                       | None => None end)
-      with (thread (fun t0 (f : field) => write_through t0 (schema_of_texpr (f_type f)) (f_validate f))).
-    rewrite thread_none. discriminate.
-Qed.
-
-Definition structs30 (l : list decl) (acc : option table) : option table :=
-  fold_left (fun a d => emit_struct30 a (d_name d) (struct_fields d)) l acc.
-
-Lemma structs30_none l : structs30 l None = None.
-Proof.
-  unfold structs30. induction l as [|d l IH]; simpl; auto.
-  replace (emit_struct30 None (d_name d) (struct_fields d)) with (@None table); auto.
-  unfold emit_struct30.
-  change (fun a f => match a with
-                     | Some t0 => write_through t0 (schema_of_texpr (f_type f)) (f_validate f)
-                     | None => None end)
-    with (thread (fun t0 (f : field) => write_through t0 (schema_of_texpr (f_type f)) (f_validate f))).
-  rewrite thread_none. reflexivity.
-Qed.
-
-Lemma structs30_keys l : forall t t', structs30 l (Some t) = Some t' ->
-  (forall x, In x (keys t') <-> In x (keys t) \/ In x (map d_name l)) /\ (NoDup (keys t) -> NoDup (keys t')).
-Proof.
-  induction l as [|d l IH]; intros t t' H.
-  - unfold structs30 in H; simpl in H. inversion H; subst. split; [intros; simpl; tauto|auto].
-  - unfold structs30 in H. simpl in H.
-    destruct (emit_struct30 (Some t) (d_name d) (struct_fields d)) as [t2|] eqn:E.
-    + fold (structs30 l (Some t2)) in H. destruct (IH _ _ H) as [IH1 IH2].
-      apply emit_struct30_some in E. destruct E as [t0 [t1 [E0 [E1 E2]]]]. inversion E0; subst t0. subst t2.
-      split.
-      * intros x. rewrite IH1, in_keys_set_comp, E1. simpl. intuition (subst; auto).
-      * intros Hn. apply IH2. apply nodup_keys_set_comp. rewrite E1. exact Hn.
-    + fold (structs30 l None) in H. rewrite structs30_none in H. discriminate.
-Qed.
-
 (* ---- keys of the whole table ---- *)
 
 Definition expected_names (u : universe) : list str :=
@@ -460,210 +382,58 @@ Proof.
     + apply filter_In in H. tauto.
 Qed.
 
-Lemma models_table_keys v u t : models_table v u = Some t ->
-  (forall x, In x (keys t) <-> In x (expected_names u)) /\ NoDup (keys t).
-Proof.
-  unfold models_table.
-  set (t0 := fold_left (fun t d => set_comp t (d_name d) (component v d)) (sorted_enums u) []).
-  assert (K0 : (forall x, In x (keys t0) <-> In x (map d_name (sorted_enums u))) /\ NoDup (keys t0)).
-  { subst t0. fold (set_all (component v) (sorted_enums u) []). split.
-    - intros x. rewrite set_all_keys. simpl. tauto.
-    - apply set_all_nodup. constructor. }
-  destruct K0 as [K0 N0].
-  assert (K1 : forall t1,
-             match v with
-             | V30 => fold_left (fun a d => emit_struct30 a (d_name d) (struct_fields d)) (sorted_structs u) (Some t0)
-             | V31 => Some (fold_left (fun t d => set_comp t (d_name d) (component v d)) (sorted_structs u) t0)
-             end = Some t1 ->
-             (forall x, In x (keys t1) <-> In x (map d_name (sorted_enums u)) \/ In x (map d_name (sorted_structs u)))
-             /\ NoDup (keys t1)).
-  { intros t1. destruct v.
-    - intros H. fold (structs30 (sorted_structs u) (Some t0)) in H.
-      destruct (structs30_keys _ _ _ H) as [A B]. split; auto. intros x. rewrite A, K0. tauto.
-    - intros H. inversion H; subst t1. fold (set_all (component V31) (sorted_structs u) t0). split.
-      + intros x. rewrite set_all_keys, K0. tauto.
-      + apply set_all_nodup; auto. }
-  destruct (match v with
-            | V30 => _
-            | V31 => _
-            end) as [t1|] eqn:E1; [|discriminate].
-  destruct (K1 t1 eq_refl) as [K1a K1b]. clear K1.
-  intros H. inversion H; subst t. clear H.
-  fold (set_all (component v) (alias_decls u)
-                (if plain_error_present u then set_comp t1 rfc_name rfc_comp else t1)).
-  split.
-  - intros x. rewrite set_all_keys. unfold expected_names. rewrite in_app_iff, reached_names_split.
-    destruct (plain_error_present u).
-    + rewrite in_keys_set_comp, K1a. simpl. intuition (subst; auto).
-    + rewrite K1a. simpl. tauto.
-  - apply set_all_nodup. destruct (plain_error_present u); auto. apply nodup_keys_set_comp; auto.
-Qed.
-
-Lemma route_write_through_keys cr t t' : route_write_through (Some t) cr = Some t' -> keys t' = keys t.
-Proof.
-  unfold route_write_through.
-  change (fun a p => match a with
-                     | Some t0 => write_through t0 (schema_of_texpr (rp_type p)) (rp_reduced p)
-                     | None => None end)
-    with (thread (fun t0 (p : rparam) => write_through t0 (schema_of_texpr (rp_type p)) (rp_reduced p))).
-  apply thread_keys. intros; eapply write_through_keys; eauto.
-Qed.
-
-Lemma route_write_through_none cr : route_write_through None cr = None.
-Proof.
-  unfold route_write_through.
-  change (fun a p => match a with
-                     | Some t0 => write_through t0 (schema_of_texpr (rp_type p)) (rp_reduced p)
-                     | None => None end)
-    with (thread (fun t0 (p : rparam) => write_through t0 (schema_of_texpr (rp_type p)) (rp_reduced p))).
-  apply thread_none.
-Qed.
-
-Lemma routes_write_through_keys l : forall t t',
-  fold_left route_write_through l (Some t) = Some t' -> keys t' = keys t.
-Proof.
-  induction l as [|cr l IH]; intros t t' H; simpl in H.
-  - inversion H; reflexivity.
-  - destruct (route_write_through (Some t) cr) as [t1|] eqn:E.
-    + rewrite (IH _ _ H). eapply route_write_through_keys; eauto.
-    + exfalso. clear -H. induction l as [|x l IHl]; simpl in H; [discriminate|].
-      rewrite route_write_through_none in H. auto.
-Qed.
-
-Lemma routes_write_through_none l : fold_left route_write_through l None = None.
-Proof. induction l as [|x l IH]; simpl; auto. rewrite route_write_through_none. exact IH. Qed.
-
 (* C07 closure: the keys of components.schemas are the names of the reached declarations, plus
    the error model exactly when the plain error type is present *)
-Theorem components_keys v u t : components v u = Some t ->
-  (forall x, In x (keys t) <-> In x (expected_names u)) /\ NoDup (keys t).
+Theorem components_keys v u :
+  (forall x, In x (keys (components v u)) <-> In x (expected_names u)) /\ NoDup (keys (components v u)).
 Proof.
-  destruct v; simpl.
-  - destruct (models_table V30 u) as [t0|] eqn:E.
-    + intros H. rewrite (routes_write_through_keys _ _ _ H). apply (models_table_keys V30 u t0 E).
-    + rewrite routes_write_through_none. discriminate.
-  - apply models_table_keys.
+  unfold components, set_decls.
+  fold (set_all (component v) (sorted_enums u) []).
+  fold (set_all (component v) (sorted_structs u) (set_all (component v) (sorted_enums u) [])).
+  fold (set_all (component v) (alias_decls u)
+                (with_rfc u (set_all (component v) (sorted_structs u) (set_all (component v) (sorted_enums u) [])))).
+  split.
+  - intros x. rewrite set_all_keys. unfold expected_names, with_rfc. rewrite in_app_iff, reached_names_split.
+    destruct (plain_error_present u).
+    + rewrite in_keys_set_comp, !set_all_keys. simpl. intuition (subst; auto).
+    + rewrite !set_all_keys. simpl. tauto.
+  - apply set_all_nodup. unfold with_rfc.
+    assert (N : NoDup (keys (set_all (component v) (sorted_structs u) (set_all (component v) (sorted_enums u) [])))).
+    { apply set_all_nodup. apply set_all_nodup. constructor. }
+    destruct (plain_error_present u); auto. apply nodup_keys_set_comp; auto.
 Qed.
 
 Definition unique_type_names (u : universe) : Prop := NoDup (expected_names u).
 
-Theorem components_closure v u t :
-  components v u = Some t -> unique_type_names u -> Permutation (keys t) (expected_names u).
+Theorem components_closure v u :
+  unique_type_names u -> Permutation (keys (components v u)) (expected_names u).
 Proof.
-  intros H Hu. destruct (components_keys v u t H) as [A B].
+  intros Hu. destruct (components_keys v u) as [A B].
   apply NoDup_Permutation; auto.
 Qed.
 
 (* ------------------------------------------------------------------ *)
-(* the table without shared-pointer effects, and what it maps each name to *)
+(* what the table maps each name to *)
 
-Definition with_rfc (u : universe) (t : table) : table :=
-  if plain_error_present u then set_comp t rfc_name rfc_comp else t.
+Definition generic_table (v : dialect) (u : universe) : table := components v u.
 
-Definition generic_table (v : dialect) (u : universe) : table :=
+Lemma generic_table_eq v u :
+  generic_table v u =
   set_all (component v) (alias_decls u)
           (with_rfc u (set_all (component v) (sorted_structs u) (set_all (component v) (sorted_enums u) []))).
-
-Lemma models_table_V31 u : models_table V31 u = Some (generic_table V31 u).
 Proof. reflexivity. Qed.
-
-(* no `oneof` / `enum` rule sits on a usage whose schema is a bare reference *)
-Definition quiet_field (f : field) : bool :=
-  match schema_of_texpr (f_type f) with SRef _ => negb (touches (f_validate f)) | _ => true end.
-
-Definition quiet_param (p : rparam) : bool :=
-  match schema_of_texpr (rp_type p) with SRef _ => negb (touches (rp_reduced p)) | _ => true end.
-
-Definition quiet (u : universe) : bool :=
-  forallb (fun d => forallb quiet_field (plain_fields (struct_fields d))) (u_decls u) &&
-  forallb (fun r => forallb quiet_param (r_params r)) (all_routes_u u).
-
-Lemma write_through_quiet t sch v :
-  match sch with SRef _ => negb (touches v) | _ => true end = true -> write_through t sch v = Some t.
-Proof.
-  unfold write_through. destruct sch; auto. intros H. apply negb_true_iff in H. rewrite H. reflexivity.
-Qed.
-
-Lemma thread_quiet {A} (g : table -> A -> option table) l t :
-  (forall x, In x l -> g t x = Some t) -> fold_left (thread g) l (Some t) = Some t.
-Proof.
-  induction l as [|x l IH]; intros H; simpl; auto.
-  rewrite (H x) by (left; reflexivity). apply IH. intros y Hy. apply H. right; auto.
-Qed.
-
-Lemma emit_struct30_quiet t name fs :
-  forallb quiet_field (plain_fields fs) = true ->
-  emit_struct30 (Some t) name fs = Some (set_comp t name (struct_comp fs)).
-Proof.
-  intros H. unfold emit_struct30.
-  change (fun a f => match a with
-                     | Some t0 => write_through t0 (schema_of_texpr (f_type f)) (f_validate f)
-                     | None => None end)
-    with (thread (fun t0 (f : field) => write_through t0 (schema_of_texpr (f_type f)) (f_validate f))).
-  rewrite thread_quiet; auto.
-  intros f Hf. apply write_through_quiet. rewrite forallb_forall in H. apply (H f Hf).
-Qed.
 
 Lemma component_struct v d : is_struct d = true -> component v d = struct_comp (struct_fields d).
 Proof. unfold is_struct, component, struct_fields. destruct (d_body d); try discriminate. reflexivity. Qed.
 
-Lemma structs30_quiet l : forall t,
-  (forall d, In d l -> is_struct d = true /\ forallb quiet_field (plain_fields (struct_fields d)) = true) ->
-  structs30 l (Some t) = Some (set_all (component V30) l t).
-Proof.
-  induction l as [|d l IH]; intros t H; [reflexivity|].
-  unfold structs30, set_all. simpl.
-  destruct (H d (or_introl eq_refl)) as [K Q].
-  rewrite emit_struct30_quiet by exact Q. rewrite (component_struct V30 d K).
-  apply IH. intros d' Hd'. apply H. right; auto.
-Qed.
-
 Lemma in_reached_decls u d : In d (reached_decls u) -> In d (u_decls u).
 Proof. unfold reached_decls. rewrite filter_In. tauto. Qed.
-
-Lemma models_table_V30_quiet u : quiet u = true -> models_table V30 u = Some (generic_table V30 u).
-Proof.
-  intros Q. unfold quiet in Q. apply andb_true_iff in Q. destruct Q as [Q _].
-  rewrite forallb_forall in Q.
-  unfold models_table.
-  fold (set_all (component V30) (sorted_enums u) []).
-  fold (structs30 (sorted_structs u) (Some (set_all (component V30) (sorted_enums u) []))).
-  rewrite structs30_quiet.
-  - reflexivity.
-  - intros d Hd. unfold sorted_structs in Hd. apply sort_by_in in Hd. apply filter_In in Hd.
-    destruct Hd as [Hd K]. split; auto. apply Q. apply in_reached_decls; auto.
-Qed.
-
-Lemma route_write_through_quiet t cr :
-  forallb quiet_param (r_params (snd cr)) = true -> route_write_through (Some t) cr = Some t.
-Proof.
-  intros H. unfold route_write_through.
-  change (fun a p => match a with
-                     | Some t0 => write_through t0 (schema_of_texpr (rp_type p)) (rp_reduced p)
-                     | None => None end)
-    with (thread (fun t0 (p : rparam) => write_through t0 (schema_of_texpr (rp_type p)) (rp_reduced p))).
-  apply thread_quiet. intros p Hp. apply write_through_quiet. rewrite forallb_forall in H. apply (H p Hp).
-Qed.
 
 Lemma in_shown_routes u c r : In (c, r) (shown_routes u) -> In r (all_routes_u u).
 Proof.
   unfold shown_routes, all_routes_u, sorted_ctrls. rewrite !in_flat_map.
   intros [c' [Hc H]]. apply in_map_iff in H. destruct H as [r' [E Hr]]. inversion E; subst.
   apply filter_In in Hr. exists c. split; [apply sort_by_in in Hc; auto|tauto].
-Qed.
-
-Lemma components_quiet v u : quiet u = true -> components v u = Some (generic_table v u).
-Proof.
-  intros Q. destruct v; [|apply models_table_V31].
-  simpl. rewrite (models_table_V30_quiet u Q).
-  unfold quiet in Q. apply andb_true_iff in Q. destruct Q as [_ Q]. rewrite forallb_forall in Q.
-  assert (H : forall l t, (forall cr, In cr l -> In (snd cr) (all_routes_u u)) ->
-                          fold_left route_write_through l (Some t) = Some t).
-  { induction l as [|cr l IH]; intros t H; simpl; auto.
-    rewrite route_write_through_quiet.
-    - apply IH. intros x Hx. apply H; right; auto.
-    - apply Q. apply H. left; reflexivity. }
-  apply H. intros [c r] Hcr. simpl. eapply in_shown_routes; eauto.
 Qed.
 
 (* ---- what a name is mapped to ---- *)
@@ -713,7 +483,7 @@ Proof.
     rewrite app_nil_r. rewrite <- He. apply in_map. exact Hd. }
   assert (Hother : forall d', In d' (reached_decls u) -> d_name d' = d_name d -> d' = d).
   { intros d' Hd' E. eapply nodup_map_inj; eauto. }
-  unfold generic_table.
+  rewrite generic_table_eq.
   destruct (kind_cases d) as [[K1 [K2 K3]]|[[K1 [K2 K3]]|[K1 [K2 K3]]]].
   - (* enum *)
     rewrite set_all_lookup_other.
@@ -750,42 +520,19 @@ Proof.
 Qed.
 
 (* C07: each reached declaration is documented by the schema of its own declaration *)
-Theorem components_lookup v u t d :
-  quiet u = true -> components v u = Some t -> unique_type_names u -> In d (reached_decls u) ->
-  lookup t (d_name d) = Some (component v d).
-Proof.
-  intros Q H Hu Hd. rewrite (components_quiet v u Q) in H. inversion H; subst.
-  apply generic_table_lookup; auto.
-Qed.
-
-Theorem components_lookup_V31 u t d :
-  components V31 u = Some t -> unique_type_names u -> In d (reached_decls u) ->
-  lookup t (d_name d) = Some (component V31 d).
-Proof.
-  intros H Hu Hd. simpl in H. rewrite models_table_V31 in H. inversion H; subst.
-  apply generic_table_lookup; auto.
-Qed.
+Theorem components_lookup v u d :
+  unique_type_names u -> In d (reached_decls u) ->
+  lookup (components v u) (d_name d) = Some (component v d).
+Proof. exact (generic_table_lookup v u d). Qed.
 
 (* non-interference: the shared component depends on the declaration alone *)
-Theorem noninterference_V31 u u' t t' d :
-  components V31 u = Some t -> components V31 u' = Some t' ->
+Theorem noninterference v u u' d :
   unique_type_names u -> unique_type_names u' ->
   In d (reached_decls u) -> In d (reached_decls u') ->
-  lookup t (d_name d) = lookup t' (d_name d).
+  lookup (components v u) (d_name d) = lookup (components v u') (d_name d).
 Proof.
-  intros H H' Hu Hu' Hd Hd'.
-  rewrite (components_lookup_V31 u t d H Hu Hd), (components_lookup_V31 u' t' d H' Hu' Hd'). reflexivity.
-Qed.
-
-Theorem noninterference_quiet v u u' t t' d :
-  quiet u = true -> quiet u' = true ->
-  components v u = Some t -> components v u' = Some t' ->
-  unique_type_names u -> unique_type_names u' ->
-  In d (reached_decls u) -> In d (reached_decls u') ->
-  lookup t (d_name d) = lookup t' (d_name d).
-Proof.
-  intros Q Q' H H' Hu Hu' Hd Hd'.
-  rewrite (components_lookup v u t d Q H Hu Hd), (components_lookup v u' t' d Q' H' Hu' Hd'). reflexivity.
+  intros Hu Hu' Hd Hd'.
+  rewrite (components_lookup v u d Hu Hd), (components_lookup v u' d Hu' Hd'). reflexivity.
 Qed.
 
 (* ------------------------------------------------------------------ *)
@@ -1068,38 +815,9 @@ Definition good (u : universe) (c : comp) : Prop := forall x, In x (comp_refs c)
 
 Definition all_good (u : universe) (t : table) : Prop := forall e, In e t -> good u (snd e).
 
-Lemma good_with_enum u c e : good u c -> good u (with_enum c e).
-Proof. unfold good, with_enum, comp_refs; simpl. auto. Qed.
-
 Lemma all_good_set_comp u t n c : all_good u t -> good u c -> all_good u (set_comp t n c).
 Proof.
   intros Ht Hc e He. apply in_set_comp in He. destruct He as [->|He]; auto.
-Qed.
-
-Lemma lookup_in t n c : lookup t n = Some c -> In (n, c) t.
-Proof.
-  induction t as [|[m c'] t IH]; simpl; [discriminate|].
-  destruct (str_eqb m n) eqn:E; intros H.
-  - apply str_eqb_spec in E. inversion H; subst. auto.
-  - auto.
-Qed.
-
-Lemma write_through_good u t sch v t' : write_through t sch v = Some t' -> all_good u t -> all_good u t'.
-Proof.
-  unfold write_through. destruct sch; try (intros H; inversion H; subst; auto).
-  destruct (touches v); [|inversion H; subst; auto].
-  destruct (lookup t name) eqn:E; [|discriminate]. inversion H; subst. intros Ht.
-  apply all_good_set_comp; auto. apply good_with_enum. apply (Ht (name, c)). apply lookup_in; auto.
-Qed.
-
-Lemma thread_good {A} u (g : table -> A -> option table) :
-  (forall t x t', g t x = Some t' -> all_good u t -> all_good u t') ->
-  forall l t t', fold_left (thread g) l (Some t) = Some t' -> all_good u t -> all_good u t'.
-Proof.
-  intros Hg. induction l as [|x l IH]; intros t t' H Ht; simpl in H.
-  - inversion H; subst; auto.
-  - destruct (g t x) eqn:E; [|rewrite thread_none in H; discriminate].
-    eapply IH; eauto.
 Qed.
 
 Lemma good_enum_alias u v d : is_struct d = false -> good u (component v d).
@@ -1153,81 +871,25 @@ Proof.
   subst e. simpl. apply good_component; auto.
 Qed.
 
-Lemma emit_struct30_good u t d t' :
-  universe_ok u -> In d (reached_decls u) -> all_good u t ->
-  emit_struct30 (Some t) (d_name d) (struct_fields d) = Some t' -> all_good u t'.
-Proof.
-  intros Hu Hd Ht H. unfold emit_struct30 in H.
-  change (fun a f => match a with
-                     | Some t0 => write_through t0 (schema_of_texpr (f_type f)) (f_validate f)
-                     | None => None end)
-    with (thread (fun t0 (f : field) => write_through t0 (schema_of_texpr (f_type f)) (f_validate f))) in H.
-  destruct (fold_left _ (plain_fields (struct_fields d)) (Some t)) as [t1|] eqn:E; [|discriminate].
-  inversion H; subst. apply all_good_set_comp; [|apply good_struct; auto].
-  eapply thread_good; [|exact E|exact Ht]. intros t2 x t3 Hx. eapply write_through_good; exact Hx.
-Qed.
-
-Lemma structs30_good u l : forall t t',
-  universe_ok u -> (forall d, In d l -> In d (reached_decls u)) -> all_good u t ->
-  structs30 l (Some t) = Some t' -> all_good u t'.
-Proof.
-  induction l as [|d l IH]; intros t t' Hu Hl Ht H.
-  - unfold structs30 in H; simpl in H. inversion H; subst; auto.
-  - unfold structs30 in H; simpl in H.
-    destruct (emit_struct30 (Some t) (d_name d) (struct_fields d)) as [t2|] eqn:E.
-    + fold (structs30 l (Some t2)) in H. eapply IH; [exact Hu| |..|exact H].
-      * intros d' Hd'. apply Hl; right; auto.
-      * eapply emit_struct30_good; [exact Hu| |exact Ht|exact E]. apply Hl; left; reflexivity.
-    + fold (structs30 l None) in H. rewrite structs30_none in H. discriminate.
-Qed.
-
 Lemma sorted_in_reached u g d : In d (sort_by d_name (filter g (reached_decls u))) -> In d (reached_decls u).
 Proof. intros H. apply sort_by_in in H. apply filter_In in H. tauto. Qed.
 
-Lemma models_table_good v u t : universe_ok u -> models_table v u = Some t -> all_good u t.
+Lemma components_good v u : universe_ok u -> all_good u (components v u).
 Proof.
-  intros Hu. unfold models_table.
+  intros Hu. unfold components, set_decls.
   fold (set_all (component v) (sorted_enums u) []).
-  assert (G0 : all_good u (set_all (component v) (sorted_enums u) [])).
-  { apply set_all_good; auto.
-    - intros d Hd. eapply sorted_in_reached; eauto.
-    - intros e []. }
-  assert (G1 : forall t1,
-             match v with
-             | V30 => fold_left (fun a d => emit_struct30 a (d_name d) (struct_fields d)) (sorted_structs u)
-                                (Some (set_all (component v) (sorted_enums u) []))
-             | V31 => Some (fold_left (fun t d => set_comp t (d_name d) (component v d)) (sorted_structs u)
-                                      (set_all (component v) (sorted_enums u) []))
-             end = Some t1 -> all_good u t1).
-  { intros t1. destruct v; intros H.
-    - fold (structs30 (sorted_structs u) (Some (set_all (component V30) (sorted_enums u) []))) in H.
-      eapply structs30_good; [exact Hu| |exact G0|exact H]. intros d Hd. eapply sorted_in_reached; eauto.
-    - inversion H; subst. fold (set_all (component V31) (sorted_structs u) (set_all (component V31) (sorted_enums u) [])).
-      apply set_all_good; auto. intros d Hd. eapply sorted_in_reached; eauto. }
-  destruct (match v with V30 => _ | V31 => _ end) as [t1|] eqn:E1; [|discriminate].
-  pose proof (G1 t1 eq_refl) as G. intros H. inversion H; subst.
-  fold (set_all (component v) (alias_decls u) (if plain_error_present u then set_comp t1 rfc_name rfc_comp else t1)).
+  fold (set_all (component v) (sorted_structs u) (set_all (component v) (sorted_enums u) [])).
+  fold (set_all (component v) (alias_decls u)
+                (with_rfc u (set_all (component v) (sorted_structs u) (set_all (component v) (sorted_enums u) [])))).
   apply set_all_good; auto.
   - intros d Hd. unfold alias_decls in Hd. apply filter_In in Hd. tauto.
-  - destruct (plain_error_present u); auto. apply all_good_set_comp; auto. apply good_rfc.
-Qed.
-
-Lemma components_good v u t : universe_ok u -> components v u = Some t -> all_good u t.
-Proof.
-  intros Hu. destruct v; simpl; [|apply models_table_good; auto].
-  destruct (models_table V30 u) as [t0|] eqn:E; [|rewrite routes_write_through_none; discriminate].
-  pose proof (models_table_good V30 u t0 Hu E) as G0.
-  clear E. generalize (shown_routes u). intros l. revert t0 G0.
-  induction l as [|cr l IH]; intros t0 G0 H; simpl in H.
-  - inversion H; subst; auto.
-  - destruct (route_write_through (Some t0) cr) as [t1|] eqn:E1.
-    + eapply IH; [|exact H]. unfold route_write_through in E1.
-      change (fun a p => match a with
-                         | Some t2 => write_through t2 (schema_of_texpr (rp_type p)) (rp_reduced p)
-                         | None => None end)
-        with (thread (fun t2 (p : rparam) => write_through t2 (schema_of_texpr (rp_type p)) (rp_reduced p))) in E1.
-      eapply thread_good; [|exact E1|exact G0]. intros t2 x t3 Hx. eapply write_through_good; exact Hx.
-    + rewrite routes_write_through_none in H. discriminate.
+  - assert (G : all_good u (set_all (component v) (sorted_structs u) (set_all (component v) (sorted_enums u) []))).
+    { apply set_all_good; auto.
+      - intros d Hd. eapply sorted_in_reached; eauto.
+      - apply set_all_good; auto.
+        + intros d Hd. eapply sorted_in_reached; eauto.
+        + intros e []. }
+    unfold with_rfc. destruct (plain_error_present u); auto. apply all_good_set_comp; auto. apply good_rfc.
 Qed.
 
 (* ---- operations ---- *)
@@ -1322,11 +984,9 @@ Theorem emit_refs_closed v u d : universe_ok u -> emit v u = Some d -> refs_clos
 Proof.
   intros Hu H. unfold emit in H.
   destruct (negb (security_ok u)); [discriminate|].
-  destruct (components V30 u) as [t30|]; [|discriminate].
-  destruct (components v u) as [t|] eqn:E; [|discriminate].
   inversion H; subst d. clear H.
   unfold refs_closed, doc_refs; cbn [doc_ops doc_comps].
-  destruct (components_keys v u t E) as [K _].
+  destruct (components_keys v u) as [K _].
   apply forallb_forall. intros x Hx. apply mem_str. apply K.
   apply in_app_iff in Hx. destruct Hx as [Hx|Hx].
   - apply in_flat_map in Hx. destruct Hx as [o [Ho Hx]].
@@ -1334,7 +994,7 @@ Proof.
     apply in_map_iff in Ho. destruct Ho as [[c r] [Eo Hcr]]. subst o. simpl in Hx.
     eapply mk_dop_refs; eauto. eapply in_shown_routes; eauto.
   - apply in_flat_map in Hx. destruct Hx as [e [He Hx]].
-    apply (components_good v u t Hu E e He). exact Hx.
+    apply (components_good v u Hu e He). exact Hx.
 Qed.
 
 (* ------------------------------------------------------------------ *)
@@ -1352,7 +1012,7 @@ Definition enum_decl_ok (v : dialect) (d : decl) : bool :=
   end.
 
 Definition well_linked (v : dialect) (u : universe) : Prop :=
-  universe_ok u /\ quiet u = true /\
+  universe_ok u /\
   (forall c r, In (c, r) (shown_routes u) ->
      route_linked c r = true /\ unique_params (map mk_dparam (filter in_url (r_params r))) = true) /\
   (forall d, In d (u_decls u) -> enum_decl_ok v d = true).
@@ -1435,7 +1095,7 @@ Qed.
 Lemma generic_table_entries v u e :
   In e (generic_table v u) -> (exists d, In d (u_decls u) /\ snd e = component v d) \/ snd e = rfc_comp.
 Proof.
-  unfold generic_table, with_rfc. intros H.
+  rewrite generic_table_eq. unfold with_rfc. intros H.
   apply set_all_entries in H. destruct H as [H|[d [Hd E]]].
   2:{ left. exists d. subst e. split; auto. unfold alias_decls in Hd. apply filter_In in Hd.
       apply in_reached_decls; tauto. }
@@ -1451,10 +1111,10 @@ Qed.
 
 Theorem emit_wf v u d : well_linked v u -> emit v u = Some d -> wf d = true.
 Proof.
-  intros [Hu [Q [Hl He]]] H.
+  intros [Hu [Hl He]] H.
   pose proof (emit_refs_closed v u d Hu H) as R.
   unfold emit in H. destruct (negb (security_ok u)); [discriminate|].
-  rewrite !(components_quiet _ u Q) in H. inversion H; subst d. clear H.
+  inversion H; subst d. clear H.
   unfold wf. rewrite R. cbn [doc_ops doc_comps andb].
   assert (Hops : forall o, In o (fold_left set_dop (map (fun cr => mk_dop (u_cfg u) (fst cr) (snd cr)) (shown_routes u)) []) ->
                  exists c r, In (c, r) (shown_routes u) /\ o = mk_dop (u_cfg u) c r).
@@ -1469,7 +1129,8 @@ Proof.
     unfold resps_described, mk_dop; cbn [dop_resps]. unfold route_resps.
     rewrite forallb_app. apply andb_true_iff. split; [|reflexivity].
     rewrite forallb_map. apply forallb_forall. reflexivity.
-  - apply forallb_forall. intros e Hin. destruct (generic_table_entries v u e Hin) as [[d0 [Hd E]]|E]; rewrite E.
+  - apply forallb_forall. intros e Hin.
+    destruct (generic_table_entries v u e Hin) as [[d0 [Hd E]]|E]; rewrite E.
     + rewrite enum_typed_component. apply He; auto.
     + reflexivity.
 Qed.
@@ -1478,8 +1139,6 @@ Qed.
 Theorem emit_sections v u d : emit v u = Some d -> sections_ok (u_cfg u) d = true.
 Proof.
   unfold emit. destruct (security_ok u) eqn:S; cbn [negb]; [|intros H; discriminate H].
-  destruct (components V30 u); [|intros H; discriminate H].
-  destruct (components v u); [|intros H; discriminate H].
   intros H. inversion H; subst d. clear H.
   unfold sections_ok; cbn [doc_title doc_version doc_servers doc_schemes doc_ops].
   rewrite !str_eqb_refl. cbn [list_eqb andb]. rewrite str_eqb_refl. cbn [andb].
@@ -1491,17 +1150,27 @@ Proof.
   rewrite (S x Hx). reflexivity.
 Qed.
 
-Theorem cmd_wf lib_ok v u d : well_linked v u -> cmd lib_ok v u = Wrote d -> prop_C08 (u_cfg u) d = true.
+(* the file is written only when gleece's validators accepted, kin-openapi accepted the 3.0 document
+   and (for 3.1) libopenapi accepted the very document that is written *)
+Theorem cmd_wrote_inv lib30 lib31 v u d :
+  cmd lib30 lib31 v u = Wrote d ->
+  gleece_accepts u = true /\ emit v u = Some d /\
+  (exists d30, emit V30 u = Some d30 /\ lib30 d30 = true) /\ (v = V31 -> lib31 d = true).
 Proof.
-  intros Hw. unfold cmd. destruct (negb (gleece_accepts u)); [discriminate|].
-  destruct (emit v u) as [d0|] eqn:E; [|discriminate]. destruct (lib_ok d0); [|discriminate].
-  intros H. inversion H; subst d0. unfold prop_C08.
-  rewrite (emit_wf v u d Hw E), (emit_sections v u d E). reflexivity.
+  unfold cmd. destruct (gleece_accepts u); cbn [negb]; [|discriminate].
+  destruct (emit V30 u) as [d30|] eqn:E30; [|discriminate]. destruct (lib30 d30) eqn:L30; [|discriminate].
+  destruct v.
+  - intros H. inversion H; subst. repeat split; eauto. discriminate.
+  - destruct (emit V31 u) as [d31|] eqn:E31; [|discriminate]. destruct (lib31 d31) eqn:L31; [|discriminate].
+    intros H. inversion H; subst. repeat split; eauto.
 Qed.
 
-(* a failed command writes nothing: there is no document to speak of *)
-Theorem cmd_failed_no_doc lib_ok v u : cmd lib_ok v u = Failed -> forall d, cmd lib_ok v u <> Wrote d.
-Proof. intros H d H'. rewrite H in H'. discriminate. Qed.
+Theorem cmd_wf lib30 lib31 v u d :
+  well_linked v u -> cmd lib30 lib31 v u = Wrote d -> prop_C08 (u_cfg u) d = true.
+Proof.
+  intros Hw H. apply cmd_wrote_inv in H. destruct H as [_ [E _]]. unfold prop_C08.
+  rewrite (emit_wf v u d Hw E), (emit_sections v u d E). reflexivity.
+Qed.
 
 (* ------------------------------------------------------------------ *)
 (* decidable forms of the hypotheses (also evaluated on generated universes by the checks) *)
@@ -1541,15 +1210,15 @@ Proof.
 Qed.
 
 Definition well_linked_b (v : dialect) (u : universe) : bool :=
-  universe_ok_b u && quiet u &&
+  universe_ok_b u &&
   forallb (fun cr => route_linked (fst cr) (snd cr) &&
                      unique_params (map mk_dparam (filter in_url (r_params (snd cr))))) (shown_routes u) &&
   forallb (enum_decl_ok v) (u_decls u).
 
 Lemma well_linked_b_sound v u : well_linked_b v u = true -> well_linked v u.
 Proof.
-  unfold well_linked_b. rewrite !andb_true_iff. intros [[[A B] C] D].
-  rewrite forallb_forall in C, D. split; [apply universe_ok_b_sound; auto|]. split; auto. split.
+  unfold well_linked_b. rewrite !andb_true_iff. intros [[A C] D].
+  rewrite forallb_forall in C, D. split; [apply universe_ok_b_sound; auto|]. split.
   - intros c r H. specialize (C (c, r) H). apply andb_true_iff in C. exact C.
   - auto.
 Qed.
@@ -1618,13 +1287,13 @@ Lemma demo_reach :
 Proof. vm_compute. repeat split. Qed.
 
 Lemma demo_hyps :
-  well_linked V31 demo_u /\ unique_type_names demo_u /\ universe_ok demo_u /\ quiet demo_u = true /\
+  well_linked V31 demo_u /\ unique_type_names demo_u /\ universe_ok demo_u /\
   ~ well_linked_b V30 demo_u = true.
 Proof.
   split; [apply well_linked_b_sound; vm_compute; reflexivity|].
   split; [apply unique_type_names_b_spec; vm_compute; reflexivity|].
   split; [apply universe_ok_b_sound; vm_compute; reflexivity|].
-  split; [vm_compute; reflexivity|]. vm_compute. discriminate.
+  vm_compute. discriminate.
 Qed.
 
 Lemma demo_doc_facts :
@@ -1648,13 +1317,16 @@ Definition f6_u : universe :=
 
 Lemma f6_refuted :
   gleece_accepts f6_u = true /\
-  exists d, cmd (lib_model_ok_v V30) V30 f6_u = Wrote d /\ wf d = false /\
+  exists d, cmd lib_model_ok (lib_model_ok_v V31) V30 f6_u = Wrote d /\ wf d = false /\
             failed_clauses (u_cfg f6_u) d = [2] /\
             map (fun o => (dop_path o, map op_name (dop_params o))) (doc_ops d) =
-              [(s "/users/{tenant}/plain", [s "id"])].
+              [(s "/users/{tenant}/plain", [s "id"])] /\
+            exists d', cmd lib_model_ok (lib_model_ok_v V31) V31 f6_u = Wrote d' /\ wf d' = false.
 Proof.
   split; [vm_compute; reflexivity|].
-  eexists. split; [vm_compute; reflexivity|]. vm_compute. repeat split.
+  eexists. split; [vm_compute; reflexivity|]. split; [vm_compute; reflexivity|].
+  split; [vm_compute; reflexivity|]. split; [vm_compute; reflexivity|].
+  eexists. split; vm_compute; reflexivity.
 Qed.
 
 (* F16: two declarations with the same bare name collapse into one component *)
@@ -1667,17 +1339,16 @@ Definition f16_u : universe :=
         mkRoute (s "B") (s "GET") (s "/b") false [] (Some (TNamed (s "m2") (s "User"))) None [] []]].
 
 Lemma f16_refuted :
-  exists t, components V31 f16_u = Some t /\ universe_ok f16_u /\
-            List.length (reached_decls f16_u) = 2 /\ keys t = [s "User"; s "Rfc7807Error"] /\
-            ~ Permutation (keys t) (expected_names f16_u).
+  universe_ok f16_u /\ List.length (reached_decls f16_u) = 2 /\
+  keys (components V31 f16_u) = [s "User"; s "Rfc7807Error"] /\
+  ~ Permutation (keys (components V31 f16_u)) (expected_names f16_u).
 Proof.
-  eexists. split; [vm_compute; reflexivity|].
   split; [apply universe_ok_b_sound; vm_compute; reflexivity|].
   split; [vm_compute; reflexivity|]. split; [vm_compute; reflexivity|].
   intros P. apply Permutation_length in P. vm_compute in P. discriminate.
 Qed.
 
-(* F9: a oneof tag at one usage site rewrites the shared enum component (3.0 only) *)
+(* F9 (fixed in gleece): a oneof tag at one usage site leaves the shared enum component alone *)
 Definition f9_decls (tag : String.string) : list decl :=
   [ mkDecl (s "types") (s "Color") (DEnum (s "string") [(s "Red", s "red"); (s "Blue", s "blue"); (s "Green", s "green")]);
     mkDecl (s "types") (s "Pal") (DStruct [fld "Col" (Some "col") tag (ty "Color")]) ].
@@ -1689,20 +1360,15 @@ Definition f9_u (tag : String.string) : universe :=
 
 Definition color_decl : decl := nth 0 (f9_decls "") (mkDecl [] [] (DAlias Tstr)).
 
-Lemma f9_refuted :
-  exists t t', components V30 (f9_u "oneof=red blue") = Some t /\ components V30 (f9_u "") = Some t' /\
-    unique_type_names (f9_u "oneof=red blue") /\ unique_type_names (f9_u "") /\
-    In color_decl (reached_decls (f9_u "oneof=red blue")) /\ In color_decl (reached_decls (f9_u "")) /\
-    lookup t (s "Color") <> lookup t' (s "Color") /\
-    option_map k_enum (lookup t (s "Color")) = Some (Some [EStr (s "red"); EStr (s "blue")]) /\
-    (* 3.1 is not affected *)
-    components V31 (f9_u "oneof=red blue") = components V31 (f9_u "").
+Lemma f9_example :
+  unique_type_names (f9_u "oneof=red blue") /\ unique_type_names (f9_u "") /\
+  In color_decl (reached_decls (f9_u "oneof=red blue")) /\ In color_decl (reached_decls (f9_u "")) /\
+  option_map k_enum (lookup (components V30 (f9_u "oneof=red blue")) (s "Color")) =
+    Some (Some [EStr (s "red"); EStr (s "blue"); EStr (s "green")]).
 Proof.
-  eexists. eexists. split; [vm_compute; reflexivity|]. split; [vm_compute; reflexivity|].
   split; [apply unique_type_names_b_spec; vm_compute; reflexivity|].
   split; [apply unique_type_names_b_spec; vm_compute; reflexivity|].
-  split; [vm_compute; auto|]. split; [vm_compute; auto|].
-  split; [vm_compute; discriminate|]. split; vm_compute; reflexivity.
+  split; [vm_compute; auto|]. split; [vm_compute; auto|]. vm_compute. reflexivity.
 Qed.
 
 (* F18: 3.0 writes the values of a non-string enum as strings *)
@@ -1728,19 +1394,11 @@ Lemma f18_shape_refuted :
   decl_by_text (nth 3 demo_decls color_decl) (component V31 (nth 3 demo_decls color_decl)) = true.
 Proof. vm_compute. split; reflexivity. Qed.
 
-(* the file is written only when gleece's validators and the library validators accepted the
-   very document that is written *)
-Theorem cmd_wrote_inv lib_ok v u d :
-  cmd lib_ok v u = Wrote d -> gleece_accepts u = true /\ emit v u = Some d /\ lib_ok d = true.
-Proof.
-  unfold cmd. destruct (gleece_accepts u); cbn [negb]; [|discriminate].
-  destruct (emit v u) as [d0|]; [|discriminate]. destruct (lib_ok d0) eqn:E; [|discriminate].
-  intros H. inversion H; subst. auto.
-Qed.
-
 Lemma demo_cmd :
-  cmd (lib_model_ok_v V31) V31 demo_u = Wrote demo_doc /\ cmd (fun _ => false) V31 demo_u = Failed /\
-  cmd (lib_model_ok_v V31) V31 (f9_u "oneof=red blue") <> Failed.
+  cmd lib_model_ok (lib_model_ok_v V31) V31 demo_u = Wrote demo_doc /\
+  cmd (fun _ => false) (lib_model_ok_v V31) V31 demo_u = Failed /\
+  cmd lib_model_ok (fun _ => false) V31 demo_u = Failed /\
+  cmd lib_model_ok (fun _ => false) V30 demo_u <> Failed.
 Proof. vm_compute. repeat split. discriminate. Qed.
 
 (* ------------------------------------------------------------------ *)
@@ -1894,7 +1552,7 @@ Lemma generic_rfc_lookup v u :
 Proof.
   intros Hu P. unfold unique_type_names, expected_names in Hu. rewrite P in Hu.
   apply NoDup_remove_2 in Hu. rewrite app_nil_r in Hu.
-  unfold generic_table. rewrite set_all_lookup_other.
+  rewrite generic_table_eq. rewrite set_all_lookup_other.
   - unfold with_rfc. rewrite P. apply lookup_set_comp_same.
   - intros Hin. apply Hu. apply in_map_iff in Hin. destruct Hin as [d [E Hd]].
     apply in_map_iff. exists d. split; auto. unfold alias_decls in Hd. apply filter_In in Hd. tauto.
@@ -1910,14 +1568,15 @@ Proof.
     + apply IH; auto.
 Qed.
 
-Theorem prop_C07_holds v u t ops :
-  components v u = Some t -> quiet u = true -> unique_type_names u -> NoDup (decl_keys u) ->
+Theorem prop_C07_holds v u ops :
+  unique_type_names u -> NoDup (decl_keys u) ->
   plain_error_present u = returns_plain_error u -> enums_fit v u ->
-  prop_C07 u (mkDoc (dc_title (u_cfg u)) (dc_version (u_cfg u)) [dc_base_url (u_cfg u)] (dc_schemes (u_cfg u)) ops t) = true.
+  prop_C07 u (mkDoc (dc_title (u_cfg u)) (dc_version (u_cfg u)) [dc_base_url (u_cfg u)] (dc_schemes (u_cfg u)) ops
+                    (components v u)) = true.
 Proof.
-  intros H Q Hu Hn Hp He.
-  destruct (components_keys v u t H) as [K ND].
-  pose proof H as Hg. rewrite (components_quiet v u Q) in Hg. inversion Hg; subst t. clear Hg.
+  intros Hu Hn Hp He.
+  destruct (components_keys v u) as [K ND].
+  change (components v u) with (generic_table v u) in *.
   unfold prop_C07. cbn [doc_comps]. rewrite (want_reached u Hn).
   assert (Hnames : NoDup (map d_name (reached_decls u))).
   { unfold unique_type_names, expected_names in Hu. eapply nodup_app_l; eauto. }
@@ -1942,10 +1601,9 @@ Proof.
 Qed.
 
 Lemma demo_holds_hyps :
-  components V31 demo_u <> None /\ quiet demo_u = true /\ unique_type_names demo_u /\ NoDup (decl_keys demo_u) /\
+  unique_type_names demo_u /\ NoDup (decl_keys demo_u) /\
   plain_error_present demo_u = returns_plain_error demo_u /\ enums_fit V31 demo_u /\ ~ enums_fit V30 demo_u.
 Proof.
-  split; [vm_compute; discriminate|]. split; [vm_compute; reflexivity|].
   split; [apply unique_type_names_b_spec; vm_compute; reflexivity|].
   split; [apply nodup_keys_b_spec; vm_compute; reflexivity|].
   split; [vm_compute; reflexivity|]. split; [left; reflexivity|].
